@@ -35,6 +35,7 @@ EXPLANATION = (
     "execution), whether describe_state is called after all of the step's effects, and the contents of untyped "
     "dictionaries (NetworkInterface.traffic / nmne) below their top-level key."
 )
+TECHNIQUE = "static: where-path resolution against the describe_state schema, leaf-to-field def-use table, CFG must-pass for absent/not-ON defaults, cross-step memory store check"
 ASSUMPTIONS = [
     "dictionaries keyed by `x.name` hold each component under the literal its class stores as kwargs['name'] in __init__",
     "observe() receives PrimaiteGame.get_sim_state(), i.e. Simulation.describe_state()",
